@@ -357,7 +357,10 @@ EvalFn(sc, i, t) ==
          IN Res(a.why \cup DupLS(v), a.unk, v)
     [] n.fn = "timestamp" ->
          LET a == A(1)
-             direct == pl[n.args[1]].op = "sel"
+             \* the reference looks through parentheses (not through a unary plus) for a selector
+             RECURSIVE Direct(_)
+             Direct(j) == pl[j].op = "sel" \/ (pl[j].op = "paren" /\ pl[j].fn # "+" /\ Direct(pl[j].args[1]))
+             direct == Direct(n.args[1])
              v == MapVec(a.vec, LAMBDA e : [ls |-> DropName(e.ls),
                                             val |-> IF direct THEN Seconds(sc, e.ts) ELSE Seconds(sc, t)])
          IN Res(a.why \cup DupLS(v), a.unk, v)
